@@ -361,6 +361,11 @@ class Interp:
         self.allow_ref_writes_after_exit = False   # a rule that reads the write log (with its conditions) itself may switch this on
         self.fold_early = True     # rules that account for early returns themselves (strictly) switch this off
         self.ref_writes = 0        # writes that went through a &mut reference (caller-visible effects)
+        self.matrix_level = False  # polynomials in one matrix are kept at matrix level (models.MatArr); switched on by the matrix rules
+        self.mat_defs = {}         # name of a matrix-level value -> its polynomial in the base matrix
+        self.mat_base = None       # the Arr that plays N̂
+        self.mat_ops_used = set()  # operator impls that were short-cut at matrix level (their entry-wise meaning is verified by the rule)
+        self.list_recurrences = [] # closed forms found for lists built by a push recurrence
 
     # ---- environment ------------------------------------------------------------------------
     class Env:
@@ -819,6 +824,15 @@ class Interp:
     def index_value(self, base, idx, e=None):
         if isinstance(base, Struct) and base.name == "Vector":
             base = base.fields["elements"]
+        if hasattr(base, "elem_expr") and isinstance(idx, Num):
+            return base.elem_expr(idx.expr)
+        if hasattr(base, "items") and isinstance(idx, Num) and idx.ent is None:
+            # an index computed from constants (`v[v.len() - 1]` on a list of known length)
+            ts_ = idx.expr.simplified().terms
+            if not ts_:
+                return base.at(0)
+            if len(ts_) == 1 and not ts_[0].atoms and not ts_[0].binders and not ts_[0].guards and ts_[0].coeff.is_Integer:
+                return base.at(int(ts_[0].coeff))
         if isinstance(base, Arr):
             if isinstance(idx, Tup):
                 ents = [self.ent_of(x) for x in idx.items]
@@ -851,6 +865,16 @@ class Interp:
                 rel = {"Eq": ("=", l.ent, r.ent), "Ne": ("!=", l.ent, r.ent), "Lt": ("<", l.ent, r.ent), "Le": ("<=", l.ent, r.ent),
                        "Gt": ("<", r.ent, l.ent), "Ge": ("<=", r.ent, l.ent)}[op]
                 return Cond("rel", rel)
+            if isinstance(l, Num) and isinstance(r, Num) and op in ("Eq", "Ne") and isinstance(r.ent, int) and r.ent in (0, 1):
+                # parity of an index: `i % 2 == 0` and its three mirror images, one canonical condition
+                ts_ = l.expr.simplified().terms
+                if len(ts_) == 1 and ts_[0].coeff == 1 and len(ts_[0].atoms) == 1 and ts_[0].atoms[0][1] == 1:
+                    a_ = ts_[0].atoms[0][0]
+                    if a_[0] == "call" and a_[1] == "mod" and len(a_) == 4 and a_[3] == Expr.const(2):
+                        its = a_[2].simplified().terms
+                        if len(its) == 1 and its[0].coeff == 1 and len(its[0].atoms) == 1 and its[0].atoms[0][0][:2] == ("leaf", "$ix") and its[0].atoms[0][1] == 1:
+                            ev = Cond("key", "even(«%s»)" % its[0].atoms[0][0][2])
+                            return ev if (op == "Eq") == (r.ent == 0) else ev.negate()
             if isinstance(l, Num) and isinstance(r, Num):
                 c_ = Cond("key", "%s %s %s" % (l.expr.key(), op, r.expr.key()), tree=("cmp", op, l.expr.key(), r.expr.key()))
                 c_.cmp = (op, l.expr, r.expr)
@@ -1297,6 +1321,8 @@ class Interp:
         lc = LoopCtx(k, cls, guards, inner_vars)
         lc.scope = getattr(self, "next_loop_scope", None)
         self.next_loop_scope = None
+        if self.matrix_level and body_expr is not None and self.solve_list_recurrence(seq, run_body, env, body_expr, lc):
+            return
         lc.cond_base = len(self.cond_stack)
         old = dict(self.class_of_index)
         self.class_of_index = dict(old)
@@ -1418,6 +1444,87 @@ class Interp:
         # apply effects
         for (var, path, op, val, gs, bs) in lc.effects:
             self.apply_summarised(var, path, op, val, lc, gs, env, bs)
+
+    def solve_list_recurrence(self, seq, run_body, env, body_expr, lc):
+        """`powers = [N]; for k in lo..hi { powers.push(f(powers)) }` where every iteration appends N̂^(len+1), proved by induction: the
+        body is evaluated with the list replaced by the closed form N̂¹..N̂^len of symbolic length len = 1 + (k − lo), and the value
+        pushed — the body's only effect — must be N̂^(len+1).  On success the variable holds the closed form of length 1 + (hi − lo)."""
+        from .models import ListV, SymList, MatArr, matpow
+        cands = []
+        for (vid, name, ty) in mutated_locals({"k": "expr", "e": body_expr}):
+            if vid in lc.inner_vars or env.lookup(vid) is None:
+                continue
+            try:
+                cur = env.get(vid)
+            except Undecided:
+                continue
+            if isinstance(cur, ListV) and len(cur.items) == 1 and isinstance(cur.items[0], Arr) and not isinstance(cur.items[0], (ListV, MatArr)) \
+                    and len(cur.items[0].classes) == 2 and (self.mat_base is None or self.mat_base is cur.items[0]):
+                cands.append((vid, cur))
+        if len(cands) != 1:
+            return False
+        v_, cur = cands[0]
+        first = cur.items[0]
+        import os as _os
+        dbg = (lambda *a: print("SLR", *a)) if _os.environ.get("MTSA_DEBUG_SLR") else (lambda *a: None)
+        # range: lo <= k < extent of the class
+        k0, cls = lc.binder, lc.cls
+        gs = [tuple(g) for g in lc.guards]
+        if len(gs) == 0:
+            lo = 0
+        elif len(gs) == 1 and gs[0][0] == "<=" and isinstance(gs[0][1], int) and gs[0][2] == k0:
+            lo = gs[0][1]
+        else:
+            return False
+        hi = self.derived_sizes.get(cls)
+        if hi is None:
+            hi = Expr.atom(("sym", str(cls)))
+        k2 = fresh("i")
+        mcls = first.classes[0]
+        len_e = Expr.const(1) + Expr.leaf("$ix", k2) - Expr.const(lo)
+        saved_base, saved_defs, saved_ops = self.mat_base, dict(self.mat_defs), set(self.mat_ops_used)
+        self.mat_base = first
+        env.set(v_, SymList(self, "⟨%s⟩" % len_e.simplified().key(), len_e, mcls))
+        guards = seq.guards_fn(k2) if seq.guards_fn else []
+        lc2 = LoopCtx(k2, cls, guards, lc.inner_vars)
+        lc2.cond_base = len(self.cond_stack)
+        old = dict(self.class_of_index)
+        self.class_of_index = dict(old)
+        self.class_of_index[k2] = cls
+        self.loops.append(lc2)
+        n_und = len(self.undecided)
+        ok = False
+        try:
+            try:
+                run_body(seq.at(k2), Interp.Env(env))
+                effs2 = [ef for ef in lc2.effects if ef[0] not in lc2.inner_vars]
+                if len(effs2) == 1 and effs2[0][0] == v_ and effs2[0][2] == "push" and not effs2[0][1] \
+                        and [tuple(g) for g in effs2[0][4]] == [tuple(g) for g in lc2.guards] and len(self.undecided) == n_und:
+                    pv = effs2[0][3]
+                    want = matpow(len_e + Expr.const(1))
+                    ok = isinstance(pv, MatArr) and pv.poly == want
+                    dbg("pushed", getattr(pv, "poly", pv), "want", want)
+                else:
+                    dbg("effects2", [(ef[0], ef[2], ef[1], ef[4]) for ef in lc2.effects], self.undecided[n_und:])
+            except (Undecided, ReturnSignal, BreakSignal, ContinueSignal) as ex_:
+                dbg("exception", type(ex_).__name__, getattr(ex_, "what", ""))
+                ok = False
+        finally:
+            self.loops.pop()
+            self.class_of_index = old
+            del self.cond_stack[lc2.cond_base:]
+            env.set(v_, cur)
+        if not ok:
+            self.mat_base, self.mat_defs, self.mat_ops_used = saved_base, saved_defs, saved_ops
+            del self.undecided[n_und:]
+            return False
+        total = (Expr.const(1) + hi - Expr.const(lo)).simplified()
+        fcls = "⟨%s⟩" % total.key()
+        self.derived_sizes[fcls] = total
+        env.set(v_, SymList(self, fcls, total, mcls))
+        self.list_recurrences.append({"var": self.var_names.get(v_, str(v_)), "lo": lo, "hi": hi, "length": total, "class": fcls,
+                                      "assumes": "hi >= lo (otherwise the list keeps its single initial element N̂, see the rule)"})
+        return True
 
     def recurrence_pass(self, seq, run_body, env, body_expr, carried, rec):
         """Second evaluation of a loop with a loop-carried dependence: the carried arrays are read as named unknowns (their final
@@ -1812,6 +1919,9 @@ def restore(env, snap):
 def merge_vals(c, a, b):
     if isinstance(a, UnitV) and isinstance(b, UnitV):
         return UNIT
+    if hasattr(a, "poly") and hasattr(b, "poly"):
+        from .models import MatArr
+        return MatArr(a.I_, a.classes[0], num_ite(c, a.poly, b.poly))
     if isinstance(a, Num) and isinstance(b, Num):
         if a.expr == b.expr:
             return a
